@@ -438,7 +438,21 @@ def run_case(case, ctx):
     # watch
     for name, idxs in tracked.items():
         full = idxs == list(range(d))
-        r = ctx.lib('grad.watch', (lambda t: torchtt.grad.watch(t)) if full else (lambda t: torchtt.grad.watch(t, list(idxs))), E.tt[name], inplace=(E.tt[name],))
+        mode = case['seed'] % 3
+        if not full and len(idxs) >= 2 and mode == 0:
+            # the cores are named in two successive calls: tracking accumulates (watch never un-tracks)
+            h = len(idxs) // 2
+            ctx.count('watch:two-successive-subsets')
+            r = ctx.lib('grad.watch', lambda t: torchtt.grad.watch(t, list(idxs[:h])), E.tt[name], inplace=(E.tt[name],))
+            if not isinstance(r, Raised):
+                r = ctx.lib('grad.watch', lambda t: torchtt.grad.watch(t, list(idxs[h:])), E.tt[name], inplace=(E.tt[name],))
+        elif full and d >= 2 and mode == 1:
+            ctx.count('watch:all-then-a-subset-again')
+            r = ctx.lib('grad.watch', lambda t: torchtt.grad.watch(t), E.tt[name], inplace=(E.tt[name],))
+            if not isinstance(r, Raised):
+                r = ctx.lib('grad.watch', lambda t: torchtt.grad.watch(t, [case['seed'] // 3 % d]), E.tt[name], inplace=(E.tt[name],))
+        else:
+            r = ctx.lib('grad.watch', (lambda t: torchtt.grad.watch(t)) if full else (lambda t: torchtt.grad.watch(t, list(idxs))), E.tt[name], inplace=(E.tt[name],))
         if isinstance(r, Raised):
             ctx.viol('watch/clause=raises:%s' % r.type, '%s: %r' % (what, r))
             return
